@@ -34,7 +34,7 @@ PLAN = {
         ],
         "assumptions": [
             "the pipeline model (appendix B of DESIGN.md) abstracts what happens inside one compression call; every model trace replayed is confirmed step by step through Progress callbacks, and a divergence is a MACHINERY-ERROR, never a verdict",
-            "worker count is set through the CPU affinity mask (taskset): W in {1,2,3} (quick: at most 40 arrival orders per program, thorough: at most 3000), W in {7,15} with 6 orders per program in thorough; at most 2 000 000 model states per program; every cap that is hit is reported and makes the run non-exhaustive for that program",
+            "worker count is set through the CPU affinity mask (taskset): W in {1,2,3} (quick: at most 40 arrival orders per program, thorough: at most 400), W in {7,15} with 6 orders per program in thorough; at most 2 000 000 model states per program; every cap that is hit is reported and makes the run non-exhaustive for that program",
             "a 20 s watchdog only turns a real deadlock into a verdict (all gates are then opened to tell a deadlock from a model mis-prediction)",
             "engine L: the real clusterwriter.rs under loom (loom Mutex/Condvar, channel shims with hang-up semantics, loom threads, 1 blob per cluster, in-memory recipient; at most 2 workers because of loom's 5-thread limit), preemption bound 2",
         ],
@@ -99,7 +99,7 @@ PLAN = {
     },
     "C05": {
         "level": "fault_enumeration",
-        "engines": lambda tier: [_e("release", "faultmc", "c05"), _e("release", "faultmc", "c05giant")],
+        "engines": lambda tier: [_e("release", "faultmc", "c05"), _e("release", "faultmc", "c05giant"), _e("release", "faultmc", "c05sweep")],
         "assumptions": [
             "the structural dump is what the public reader API returns (pack infos, index headers, every entry's variant and values, content sizes, content hashes)",
             "a node absent from the altered dump is accepted only because counts/lengths are always dumped next to it",
@@ -108,7 +108,7 @@ PLAN = {
     },
     "C06": {
         "level": "fault_enumeration",
-        "engines": lambda tier: [_e("release", "faultmc", "c06"), _e("dev", "faultmc", "c06")],
+        "engines": lambda tier: [_e("release", "faultmc", "c06"), _e("dev", "faultmc", "c06"), _e("release", "faultmc", "c06sweep"), _e("dev", "faultmc", "c06sweep")],
         "assumptions": [
             "hang detection is wall-clock based: 10 s without an answer (typical case: a few ms), confirmed alone with 30 s",
             "each case runs in a worker process; process death is attributed to the case in flight",
